@@ -51,6 +51,14 @@ PrecUp(N, parent, fuel) ==
     IF parent = 0 \/ fuel = 0 THEN <<>> ELSE SibsBack(N, parent, Len(N)) \o PrecUp(N, N[parent].p, fuel - 1)
 L2Preceding(N, i) == PrecUp(N, i, Len(N) + 1)
 
+\* src/levelorder.rs: a queue; an End marker (0) whenever the parent changes from one dequeued node to the next, and at the end
+RECURSIVE LoRun(_, _, _, _)
+LoRun(N, queue, last, fuel) ==
+    IF queue = <<>> \/ fuel = 0 THEN <<0>>
+    ELSE LET node == Head(queue) IN
+         (IF N[last].p # N[node].p THEN <<0>> ELSE <<>>) \o <<node>> \o LoRun(N, Tail(queue) \o NormKids(N, node), node, fuel - 1)
+L2LevelOrder(N, i) == LoRun(N, <<i>>, i, Len(N) + 1)
+
 -----------------------------------------------------------------------------
 (* src/valueaccess.rs: the equality family as written - two filtered edge   *)
 (* streams compared pairwise (Start/Start by value, End/End for structure), *)
@@ -115,4 +123,5 @@ L2AxesRefineAt(N, i) ==
     /\ L2ReversePreorder(N, i, FALSE) = (IF IsNormal(N, i) THEN ReversePreorder(N, i) ELSE Tail(Rev(SelectSeq(SubSeq(AllOrder(N, i), 1, Pos(AllOrder(N, i), i)), LAMBDA x : IsNormal(N, x) \/ x = i))))
     /\ L2ReversePreorder(N, i, TRUE) = AllReversePreorder(N, i)
     /\ IsNormal(N, i) => L2Preceding(N, i) = Preceding(N, i)
+    /\ IsNormal(N, i) => L2LevelOrder(N, i) = LevelOrder(N, i)
 =============================================================================
